@@ -259,6 +259,16 @@ def check_affine(case, out):
         if [oracle.mult(L, z) for z in oracle.breaks(L)] != [oracle.mult(U, z) for z in bk]:
             out.fail("multiplicities", klass, f"{where}: {list(k)} vs {Ulib}")
             return None
+        # ... and the mapped vector reports them itself (knots / mult / span agree with its element list)
+        kn = list(k.knots)
+        if [oracle.frac(z) for z in kn] != oracle.breaks(L):
+            out.fail("multiplicities", klass, f"{where}: knots {kn} of {list(k)}")
+            return None
+        for z in kn:
+            m = k.mult(z)
+            if m != oracle.mult(L, oracle.frac(z)):
+                out.fail("multiplicities", klass, f"{where}: mult({z}) = {m} on {list(k)}")
+                return None
         return L
 
     def mapped(L, f, where):
